@@ -333,6 +333,31 @@ fn validate_snippets(work: &Path, dropped: &mut Vec<String>) -> (Vec<Vec<String>
 
 fn gen_cases(r: &mut Rng, n: usize, work: &Path, snippets: &(Vec<Vec<String>>, Vec<Vec<String>>), kinds: &mut BTreeMap<String, usize>, opt_hist: &mut BTreeMap<String, usize>) -> Vec<Case> {
     let mut v = vec![];
+    // (first in the list, the C++-by-extension one before the C ones: the baselines of the first cases are
+    // computed one after the other in this process, so process-wide state left by one is seen by the next)
+    {
+        // the same text as a C++ header (language inferred from the extension only)
+        let body = "#if __has_include(<atomic>)\nint incpath_has_cxx;\n#else\nint incpath_plain_c;\n#endif\n";
+        let name = "incpath3.hpp".to_string();
+        let path = work.join(&name);
+        std::fs::write(&path, body).unwrap();
+        v.push(Case { name, header: path, text: Some(body.to_string()), pre: vec!["--formatter".into(), "none".into()], clang: vec![], has_static_fns: false, inproc_ok: true });
+    }
+    // headers whose translation depends on the system include path, with clang arguments that change it: the
+    // include-path detection (`clang -E -v` through clang_sys) must be a function of this generation's arguments
+    for (j, (body, clang)) in [
+        ("#if __has_include(<stdint.h>)\n#include <stdint.h>\ntypedef uint32_t incpath_reg_t;\n#else\ntypedef unsigned incpath_reg_t;\n#endif\nincpath_reg_t incpath_f(void);\n", vec![]),
+        ("#if __has_include(<stdint.h>)\n#include <stdint.h>\ntypedef uint32_t incpath_reg_t;\n#else\ntypedef unsigned incpath_reg_t;\n#endif\nincpath_reg_t incpath_f(void);\n", vec!["-nostdinc"]),
+        ("#if __has_include(<atomic>)\nint incpath_has_cxx;\n#else\nint incpath_plain_c;\n#endif\n#include <stddef.h>\nsize_t incpath_g(void);\n", vec![]),
+    ].into_iter().enumerate() {
+        let cpp = false;
+        let name = format!("incpath{j}.{}", if j == 3 { "hpp" } else { "h" });
+        let path = work.join(&name);
+        std::fs::write(&path, body).unwrap();
+        *kinds.entry("include-path-sensitive".to_owned()).or_insert(0) += 1;
+        let _ = cpp;
+        v.push(Case { name, header: path, text: Some(body.to_string()), pre: vec!["--formatter".into(), "none".into()], clang: clang.iter().map(|s| s.to_string()).collect(), has_static_fns: false, inproc_ok: true });
+    }
     for i in 0..n {
         let cpp = r.chance(1, 2);
         let size = r.range(8, 60) as usize;
@@ -372,29 +397,6 @@ fn gen_cases(r: &mut Rng, n: usize, work: &Path, snippets: &(Vec<Vec<String>>, V
         for f in &flags { *opt_hist.entry(f.to_string()).or_insert(0) += 1; }
         *kinds.entry("multi-abi-extern-blocks".to_owned()).or_insert(0) += 1;
         v.push(Case { name, header: path, text: Some(text), pre, clang: if cpp { vec!["-x".into(), "c++".into()] } else { vec![] }, has_static_fns: false, inproc_ok: true });
-    }
-    // headers whose translation depends on the system include path, with clang arguments that change it: the
-    // include-path detection (`clang -E -v` through clang_sys) must be a function of this generation's arguments
-    for (j, (body, clang)) in [
-        ("#if __has_include(<stdint.h>)\n#include <stdint.h>\ntypedef uint32_t incpath_reg_t;\n#else\ntypedef unsigned incpath_reg_t;\n#endif\nincpath_reg_t incpath_f(void);\n", vec![]),
-        ("#if __has_include(<stdint.h>)\n#include <stdint.h>\ntypedef uint32_t incpath_reg_t;\n#else\ntypedef unsigned incpath_reg_t;\n#endif\nincpath_reg_t incpath_f(void);\n", vec!["-nostdinc"]),
-        ("#if __has_include(<atomic>)\nint incpath_has_cxx;\n#else\nint incpath_plain_c;\n#endif\n#include <stddef.h>\nsize_t incpath_g(void);\n", vec![]),
-    ].into_iter().enumerate() {
-        let cpp = false;
-        let name = format!("incpath{j}.{}", if j == 3 { "hpp" } else { "h" });
-        let path = work.join(&name);
-        std::fs::write(&path, body).unwrap();
-        *kinds.entry("include-path-sensitive".to_owned()).or_insert(0) += 1;
-        let _ = cpp;
-        v.push(Case { name, header: path, text: Some(body.to_string()), pre: vec!["--formatter".into(), "none".into()], clang: clang.iter().map(|s| s.to_string()).collect(), has_static_fns: false, inproc_ok: true });
-    }
-    {
-        // the same text as a C++ header (language inferred from the extension only)
-        let body = "#if __has_include(<atomic>)\nint incpath_has_cxx;\n#else\nint incpath_plain_c;\n#endif\n";
-        let name = "incpath3.hpp".to_string();
-        let path = work.join(&name);
-        std::fs::write(&path, body).unwrap();
-        v.push(Case { name, header: path, text: Some(body.to_string()), pre: vec!["--formatter".into(), "none".into()], clang: vec![], has_static_fns: false, inproc_ok: true });
     }
     v
 }
